@@ -791,6 +791,12 @@ func (w *World) preservedKeys(env *CEnv, e *CExpr) []string {
 						}
 					}
 				}
+			case "mapsOf":
+				// the contents (domain, values, length) of every map of that type
+				if mt, ok := w.typeArg(env, e.Args[1]).Underlying().(*types.Map); ok {
+					dk, vk := w.mapKeys(w.sortOf(mt.Key()), w.sortOf(mt.Elem()))
+					return []string{dk, vk, "MapLen"}
+				}
 			case "fieldsOf":
 				t := w.typeArg(env, e.Args[1])
 				var out []string
